@@ -32,6 +32,12 @@ specification left to right: finding V13). -/
 def oneNonAtom (args : List (String × Expr)) : Bool :=
   decide ((args.filter fun a => !atomE a.2).length ≤ 1)
 
+/-- The target types of the casts of the fragment: the scalar kinds (`castVal` converts or raises the cast
+exception, and allocates nothing). -/
+def castTyOK : Ty → Bool
+  | .int | .float | .bool | .str | .null | .range | .any => true
+  | _ => false
+
 /-- Literals a `match` arm may test against. -/
 def litE : Expr → Bool
   | .int .. | .bool .. | .str .. => true
@@ -75,6 +81,7 @@ mutual
 def depthGE : Expr → Nat
   | .grouped _ e => depthGE e + 1
   | .pre _ _ _ e => depthGE e + 1
+  | .cast _ _ e => depthGE e + 1
   | .infix _ _ _ l r => max (depthGE l) (depthGE r) + 1
   | .ifE _ _ c t (some e) => max (depthGE c) (max (depthGB t) (depthGB e)) + 1
   | .call _ _ (.member _ _ b _ _) args _ => max (depthGE b) (depthGArgs args) + 2
@@ -99,6 +106,7 @@ def varsGE : Expr → List String
   | .grouped _ e => varsGE e
   | .ident _ _ name _ _ _ => [name]
   | .pre _ _ _ e => varsGE e
+  | .cast _ _ e => varsGE e
   | .infix _ _ _ l r => varsGE l ++ varsGE r
   | .ifE _ _ c t (some e) => varsGE c ++ (varsGB t ++ varsGB e)
   | .call _ _ (.member _ _ b _ _) args _ => varsGE b ++ varsGArgs args
@@ -125,6 +133,7 @@ mutual
 def callsGE : Expr → List String
   | .grouped _ e => callsGE e
   | .pre _ _ _ e => callsGE e
+  | .cast _ _ e => callsGE e
   | .infix _ _ _ l r => callsGE l ++ callsGE r
   | .ifE _ _ c t (some e) => callsGE c ++ (callsGB t ++ callsGB e)
   | .call _ _ (.ident _ _ name _ _ _) args _ => name :: callsGArgs args
@@ -164,6 +173,7 @@ def okE (fr : Bool) : Expr → Bool
   | .ident _ _ _ isGlobal isFn isSingleton => !isGlobal && !isFn && !isSingleton
   | .grouped _ e => okE fr e
   | .pre _ _ _ e => okE fr e
+  | .cast _ ty e => fr && castTyOK ty && okE fr e
   | .infix sp ty op l r =>
     pureE (.infix sp ty op l r) ||
       (!isLogical op && okE fr l && okE fr r && (!isRead l || (callsGE r).isEmpty))
@@ -246,6 +256,7 @@ def cgE (mod : String) (ρ φ : String → Option String) : Expr → LM → SCod
       | some m => [(.getVar m, sp)]
       | none => [], lm)
   | .pre sp _ op e, lm => ((cgE mod ρ φ e lm).1 ++ [(preI op, sp)], (cgE mod ρ φ e lm).2)
+  | .cast sp ty e, lm => ((cgE mod ρ φ e lm).1 ++ [(.cast ty true, sp)], (cgE mod ρ φ e lm).2)
   | .infix sp _ .or l r, lm =>
     let rt := freshLabel mod lm "return_true"
     let af := freshLabel mod rt.2 "after_infix"
